@@ -87,6 +87,7 @@ void do_op(Ctx &c, const C08Op &op)
   case C08_RAW_ASSIGN:
   case C08_DESTROY:
   case C08_COMPARE:
+  case C08_COMPARE_MIXED:
     if (!dst_live)
       return;
     break;
@@ -106,7 +107,7 @@ void do_op(Ctx &c, const C08Op &op)
   }
   SimTag tag(SIM_TAG_SUT);
   int so = objid(src->ptr);
-  if (op.kind == C08_CONV_CTOR)
+  if (op.kind == C08_CONV_CTOR || op.kind == C08_COMPARE_MIXED)
     so = objid(c.dslot[op.src & 1].ptr);
   c08_pre(c.tid, &op, so);
   int eq = -1, ne = -1, lt = -1, gt = -1;
@@ -150,6 +151,11 @@ void do_op(Ctx &c, const C08Op &op)
     ne = c.slot(d) != *src;
     lt = c.slot(d) < *src;
     gt = *src < c.slot(d);
+    break;
+  case C08_COMPARE_MIXED:
+    // a handle to the base type against a handle to the derived type, both ways round
+    eq = (c.slot(d) == c.dslot[op.src & 1]) && (c.dslot[op.src & 1] == c.slot(d));
+    ne = (c.slot(d) != c.dslot[op.src & 1]) || (c.dslot[op.src & 1] != c.slot(d));
     break;
   case C08_PAYLOAD:
     c.slot(d)->payload = c.slot(d)->payload + 1;
